@@ -1,7 +1,9 @@
 /* C15: Request/Response Authenticator of include/proto/radius.h, --dfcc, md5_init/update/final replaced
  * by the ghost-stream contracts of stubs/radius_md5.h; packet of symbolic size (validated header),
  * secret of symbolic length.  -DVF_FN_calc | -DVF_FN_chk | -DVF_FN_ma_calc (Message-Authenticator, hmac_md5_* replaced) */
+#ifndef VF_RAD_BUILTIN_LIBC	/* in-place jobs: CBMC's own constant-size memset/memcpy */
 #define VF_RAD_LIBC_LOOP
+#endif
 #define VF_RAD_MD5_CHAIN
 #include "stubs/radius_md5.h"
 #include "contracts/radius.h"
@@ -9,7 +11,7 @@
 #include "proto/radius.h"
 
 size_t vf_rad_span, vf_rad_k, vf_rad_z, vf_rad_len_old, vf_rad_blk, vf_rad_m;
-uint8_t vf_rad_old;
+uint8_t vf_rad_old, vf_rad_auth_old;
 size_t vf_md5_k, vf_md5_n, vf_md5_len[VF_MD5_TBL];
 uint8_t vf_md5_at[VF_MD5_TBL], vf_md5_dig[VF_MD5_TBL][16];
 const uint8_t *vf_hm_key[VF_HM_TBL + 1];
@@ -46,9 +48,43 @@ void harness(void) {
 	rad_pkt_attr_p attr;
 #endif
 	r = radius_pkt_attr_msg_authenticator_calc((rad_pkt_hdr_p)pkt, attr, key, key_len, inside, (rad_pkt_hdr_p)req, out);
+#elif defined(VF_FN_ma_calc_inplace)
+	/* output == the attribute's own value bytes: contract radius_pkt_attr_msg_authenticator_calc_inplace */
+	vf_hm_n = 0;
+#ifdef VF_REPLAY
+	VF_NONDET(size_t, off);
+	rad_pkt_attr_p attr = (rad_pkt_attr_p)(pkt + ((off >= 20 && off + 18 <= span) ? off : 20));
+	uint8_t *out = (uint8_t *)attr + 2;
 #else
-#error "select VF_FN_calc, VF_FN_chk or VF_FN_ma_calc"
+	rad_pkt_attr_p attr;
+	uint8_t *out;
 #endif
-	VF_NATIVE_POST(r == 0 || r == EINVAL || r == EBADMSG, "return code");
+	r = radius_pkt_attr_msg_authenticator_calc((rad_pkt_hdr_p)pkt, attr, key, key_len, inside, (rad_pkt_hdr_p)req, out);
+#elif defined(VF_FN_calc_inplace)
+	/* output == the packet's own authenticator field: contract radius_pkt_authenticator_calc_inplace */
+#ifdef VF_REPLAY
+	uint8_t *out = pkt + 4;
+#else
+	uint8_t *out;
+#endif
+	r = radius_pkt_authenticator_calc((rad_pkt_hdr_p)pkt, key, key_len, inside, (rad_pkt_hdr_p)req, out);
+#elif defined(VF_FN_ma_chk) || defined(VF_FN_ma_update)
+	VF_NONDET(size_t, offset);
+	VF_NONDET(size_t, gk);
+	VF_FRESH_PTR_OPT(size_t, offset_ret, sizeof(size_t));
+	vf_hm_n = 0; vf_rad_k = gk;
+#if defined(VF_FN_ma_chk)
+	r = radius_pkt_attr_msg_authenticator_chk((rad_pkt_hdr_p)pkt, offset, key, key_len, inside, (rad_pkt_hdr_p)req, offset_ret);
+#else
+	r = radius_pkt_attr_msg_authenticator_update((rad_pkt_hdr_p)pkt, offset, key, key_len, inside, (rad_pkt_hdr_p)req, offset_ret);
+#endif
+#elif defined(VF_FN_update)
+	VF_NONDET(size_t, gk);
+	vf_rad_k = gk;
+	r = radius_pkt_authenticator_update((rad_pkt_hdr_p)pkt, key, key_len, inside, (rad_pkt_hdr_p)req);
+#else
+#error "select VF_FN_calc, VF_FN_chk, VF_FN_ma_calc, VF_FN_ma_calc_inplace, VF_FN_calc_inplace, VF_FN_ma_chk, VF_FN_ma_update or VF_FN_update"
+#endif
+	VF_NATIVE_POST(r == 0 || r == -1 || r == EINVAL || r == EBADMSG, "return code");
 	VF_CANARY("radius authenticator harness end");
 }
